@@ -448,6 +448,318 @@ class Summaries:
         out = [self.apply_fn(ctx, st, f, [e]) for e in arr.fields]
         return [(st, Agg("array", None, None, out, ctx.dest_ty))]
 
+    def s_split_first(self, ctx, st):
+        """slice::split_first"""
+        ex = ctx.ex
+        p = ctx.args[0]
+        n = self.ptr_len(ctx, st, p)
+        if n is None:
+            return None
+        n = st.facts.simplify(n)
+        ety = (p.pty or {}).get("ty")
+        first = Ptr(p.root, self.elem_path(p, 0), None, ety, False)
+        c = n.const_value()
+        if c is not None and p.path and p.path[-1][0] == "s":
+            base = p.path[-1][1]
+            rest = Ptr(p.root, p.path[:-1] + (("s", base + 1, base + c),), IntV(ex.pbits, False, p=Poly.const(max(c - 1, 0))), p.pty, False)
+        elif c is not None:
+            rest = Ptr(p.root, p.path + (("s", 1, c),), IntV(ex.pbits, False, p=Poly.const(max(c - 1, 0))), p.pty, False)
+        else:
+            rest = Ptr(p.root, p.path + (("sx", "1", repr(n)),), IntV(ex.pbits, False, p=n - 1), p.pty, False)
+        some = Agg("adt", OPTION, 1, [Agg("tuple", None, None, [first, rest])])
+        none = Agg("adt", OPTION, 0, [])
+        return [(st, mk_ite(ge0(n - 1, st.facts), some, none))]
+
+    def s_slice_iter(self, ctx, st):
+        """slice::iter | slice::iter_mut | slice::chunks_exact_mut | slice::chunks_exact"""
+        name = ctx.callee["name"]
+        ex = ctx.ex
+        if name.startswith("chunks"):
+            # the chunks borrow the slice mutably: its contents are unknown while (and after) they live
+            p = ctx.args[0]
+            if name.endswith("_mut"):
+                cur = ex.read(st, p.root, p.path, p.pty)
+                ex.write(st, p.root, p.path, ex.havoc_like(cur, "chunks"), p.pty)
+        return [(st, Agg("adt", "core::slice::" + name, 0, list(ctx.args), ctx.dest_ty))]
+
+    # ------------------------------------------------------------------ generic traits
+    def s_clone(self, ctx, st):
+        """core::clone::Clone::clone"""
+        if ctx.r["kind"] == "body":
+            return None
+        return [(st, self.deref_arg(ctx, st, ctx.args[0]))]
+
+    def val_eq(self, ctx, st, a, b):
+        ex = ctx.ex
+        if isinstance(a, IntV) and isinstance(b, IntV):
+            return cmp_eq(a.poly(), b.poly(), st.facts)
+        if isinstance(a, BoolV) and isinstance(b, BoolV):
+            return ONE - (a.p + b.p - 2 * (a.p * b.p))
+        if isinstance(a, ITE):
+            return a.c * self.val_eq(ctx, st, a.a, b) + (ONE - a.c) * self.val_eq(ctx, st, a.b, b)
+        if isinstance(b, ITE):
+            return self.val_eq(ctx, st, b, a)
+        if isinstance(a, SymV) and a.ty.get("k") == "adt" and ex.adt(a.ty["def"])["kind"] == "struct":
+            a = ex.expand_sym(a)
+        if isinstance(b, SymV) and b.ty.get("k") == "adt" and ex.adt(b.ty["def"])["kind"] == "struct":
+            b = ex.expand_sym(b)
+        if isinstance(a, SymV) and isinstance(b, SymV) and a.name == b.name:
+            return ONE
+        if isinstance(a, (Agg, SymV)) and isinstance(b, (Agg, SymV)):
+            ta = a.ty if isinstance(a, SymV) else None
+            is_enum = False
+            for x in (a, b):
+                d = x.name if isinstance(x, Agg) else (x.ty.get("def") if x.ty.get("k") == "adt" else None)
+                if isinstance(x, Agg) and x.kind != "adt":
+                    d = None
+                if d is not None and ex.adt(d)["kind"] == "enum":
+                    is_enum = True
+            if is_enum:
+                res = ZERO
+                for ca, va, fa in self.split_enum(ex, st, a):
+                    for cb, vb, fb in self.split_enum(ex, st, b):
+                        if va != vb:
+                            continue
+                        e = ca * cb
+                        for x, y in zip(fa, fb):
+                            e = e * self.val_eq(ctx, st, x, y)
+                        res = res + e
+                return res
+            if isinstance(a, Agg) and isinstance(b, Agg) and len(a.fields) == len(b.fields):
+                e = ONE
+                for x, y in zip(a.fields, b.fields):
+                    e = e * self.val_eq(ctx, st, x, y)
+                return e
+        if vkey(a) == vkey(b):
+            return ONE
+        return Poly.atom(("b", "eq(%r,%r)" % (a, b)))
+
+    def s_eq(self, ctx, st):
+        """core::cmp::PartialEq::eq | core::cmp::PartialEq::ne"""
+        if ctx.r["kind"] == "body":
+            return None
+        a = self.deref_arg(ctx, st, ctx.args[0])
+        b = self.deref_arg(ctx, st, ctx.args[1])
+        while isinstance(a, Ptr) and isinstance(b, Ptr):
+            a, b = self.deref_arg(ctx, st, a), self.deref_arg(ctx, st, b)
+        e = self.val_eq(ctx, st, a, b)
+        if ctx.callee["name"] == "ne":
+            e = ONE - e
+        return [(st, BoolV(e))]
+
+    # ------------------------------------------------------------------ iterators
+    def s_adaptor(self, ctx, st):
+        """core::iter::traits::iterator::Iterator::map | core::iter::traits::iterator::Iterator::take | core::iter::traits::iterator::Iterator::take_while | core::iter::traits::iterator::Iterator::filter | core::iter::traits::iterator::Iterator::skip | core::iter::traits::iterator::Iterator::by_ref | core::iter::sources::once::once | core::iter::traits::iterator::Iterator::enumerate | core::iter::traits::iterator::Iterator::zip | core::iter::traits::iterator::Iterator::copied | core::iter::traits::iterator::Iterator::cloned"""
+        if ctx.r["kind"] == "body":
+            return None
+        name = ctx.callee["name"]
+        if name == "by_ref":
+            return [(st, ctx.args[0])]
+        return [(st, Agg("adt", "core::iter::" + name, 0, list(ctx.args), ctx.dest_ty))]
+
+    def s_into_iter(self, ctx, st):
+        """core::iter::traits::collect::IntoIterator::into_iter"""
+        if ctx.r["kind"] == "body":
+            return None
+        sty = ctx.gargs[0]
+        k = sty.get("k")
+        v = ctx.args[0]
+        if k == "adt":
+            d = sty["def"]
+            if d.startswith("core::iter::") or d.startswith("core::ops::range::") or d.startswith("core::slice::") \
+                    or d.startswith("core::array::iter") or ctx.ex.F.impls_by_trait.get("core::iter::traits::iterator::Iterator") and any(
+                        i["self_ty"].get("def") == d for i in ctx.ex.F.impls_by_trait["core::iter::traits::iterator::Iterator"]):
+                return [(st, v)]
+            if isinstance(v, Agg) and v.name and v.name.startswith(("core::iter::", "core::slice::")):
+                return [(st, v)]
+        if k == "array":
+            return [(st, Agg("adt", "core::array::into_iter", 0, [v], ctx.dest_ty))]
+        if k == "ref" and sty["ty"].get("k") in ("slice", "array"):
+            return [(st, Agg("adt", "core::slice::iter", 0, [v], ctx.dest_ty))]
+        if isinstance(v, Agg) and v.kind == "adt" and v.name.startswith(("core::iter::", "core::slice::", "core::array::")):
+            return [(st, v)]
+        # abstract IntoIterator (a caller-supplied stream): a pure term of its argument
+        return [(st, Agg("adt", "core::iter::into_iter", 0, [v], ctx.dest_ty))]
+
+    def s_iter_next(self, ctx, st):
+        """core::iter::traits::iterator::Iterator::next | core::iter::traits::iterator::Iterator::nth"""
+        if ctx.r["kind"] == "body":
+            return None
+        return ctx.ex.abstract_call(st, ctx.fr, ctx.callee, ctx.r, ctx.args, ctx.dest_ty, ctx.span)
+
+    # ------------------------------------------------------------------ embedded-graphics-core
+    EG = "embedded_graphics_core::"
+    POINT = "embedded_graphics_core::geometry::point::Point"
+    SIZE = "embedded_graphics_core::geometry::size::Size"
+    RECT = "embedded_graphics_core::primitives::rectangle::Rectangle"
+
+    def s_size_new(self, ctx, st):
+        """embedded_graphics_core::geometry::size::Size::new | embedded_graphics_core::geometry::point::Point::new"""
+        name = self.SIZE if "size" in ctx.key else self.POINT
+        return [(st, Agg("adt", name, 0, list(ctx.args), ctx.dest_ty))]
+
+    def s_rect_new(self, ctx, st):
+        """embedded_graphics_core::primitives::rectangle::Rectangle::new"""
+        return [(st, Agg("adt", self.RECT, 0, list(ctx.args), ctx.dest_ty))]
+
+    def rect_parts(self, ctx, st, r):
+        """(x, y, w, h) polys of a Rectangle value"""
+        ex = ctx.ex
+        if isinstance(r, SymV):
+            r = ex.expand_sym(r)
+        tl, sz = r.fields
+        if isinstance(tl, SymV):
+            tl = ex.expand_sym(tl)
+        if isinstance(sz, SymV):
+            sz = ex.expand_sym(sz)
+        return tl.fields[0].poly(), tl.fields[1].poly(), sz.fields[0].poly(), sz.fields[1].poly()
+
+    def mk_rect(self, x, y, w, h):
+        return Agg("adt", self.RECT, 0, [Agg("adt", self.POINT, 0, [IntV(32, True, p=x), IntV(32, True, p=y)]),
+                                          Agg("adt", self.SIZE, 0, [IntV(32, False, p=w), IntV(32, False, p=h)])])
+
+    def s_bounding_box(self, ctx, st):
+        """embedded_graphics_core::geometry::Dimensions::bounding_box"""
+        if ctx.r["kind"] == "body":
+            return None
+        # blanket impl for OriginDimensions: Rectangle::new(Point::zero(), self.size())
+        sty = ctx.gargs[0]
+        callee = mk_callee("embedded_graphics_core::geometry::OriginDimensions", "size", [sty])
+        size = ctx.ex.call_single(st, ctx.fr, callee, {}, [ctx.args[0]], None, ctx.span)
+        if isinstance(size, SymV):
+            size = ctx.ex.expand_sym(size)
+        zero = IntV(32, True, p=ZERO)
+        return [(st, Agg("adt", self.RECT, 0, [Agg("adt", self.POINT, 0, [zero, zero]), size], ctx.dest_ty))]
+
+    def s_intersection(self, ctx, st):
+        """embedded_graphics_core::primitives::rectangle::Rectangle::intersection"""
+        ex = ctx.ex
+        a = self.deref_arg(ctx, st, ctx.args[0])
+        b = self.deref_arg(ctx, st, ctx.args[1])
+        ax, ay, aw, ah = self.rect_parts(ctx, st, a)
+        bx, by, bw, bh = self.rect_parts(ctx, st, b)
+        n = ex.fresh("isect")
+        ix = sym_int(n + ".x", 32, True)
+        iy = sym_int(n + ".y", 32, True)
+        iw = sym_int(n + ".w", 32, False)
+        ih = sym_int(n + ".h", 32, False)
+        # contract: a non-empty result lies inside both operands; an empty one has zero size
+        nonempty = ge0(iw - 1, st.facts) * ge0(ih - 1, st.facts)
+        for (px, pw, qx, qw) in ((ix, iw, ax, aw), (ix, iw, bx, bw), (iy, ih, ay, ah), (iy, ih, by, bh)):
+            st.facts.add_conditional(nonempty, px - qx)
+            st.facts.add_conditional(nonempty, (qx + qw) - (px + pw))
+        ex.alias_defs[("isect", n)] = {"a": (ax, ay, aw, ah), "b": (bx, by, bw, bh), "r": (ix, iy, iw, ih)}
+        r = self.mk_rect(ix, iy, iw, ih)
+        r.extra = ("intersection", n, vkey(a), vkey(b))
+        return [(st, r)]
+
+    def s_bottom_right(self, ctx, st):
+        """embedded_graphics_core::primitives::rectangle::Rectangle::bottom_right"""
+        r = self.deref_arg(ctx, st, ctx.args[0])
+        x, y, w, h = self.rect_parts(ctx, st, r)
+        nonempty = ge0(w - 1, st.facts) * ge0(h - 1, st.facts)
+        some = Agg("adt", OPTION, 1, [Agg("adt", self.POINT, 0, [IntV(32, True, p=x + w - 1), IntV(32, True, p=y + h - 1)])])
+        return [(st, mk_ite(nonempty, some, Agg("adt", OPTION, 0, [])))]
+
+    def s_contains(self, ctx, st):
+        """embedded_graphics_core::primitives::rectangle::Rectangle::contains"""
+        r = self.deref_arg(ctx, st, ctx.args[0])
+        p = ctx.args[1]
+        if isinstance(p, SymV):
+            p = ctx.ex.expand_sym(p)
+        x, y, w, h = self.rect_parts(ctx, st, r)
+        px, py = p.fields[0].poly(), p.fields[1].poly()
+        f = st.facts
+        c = ge0(px - x, f) * ge0(x + w - 1 - px, f) * ge0(py - y, f) * ge0(y + h - 1 - py, f)
+        return [(st, BoolV(c))]
+
+    # ------------------------------------------------------------------ heapless::Vec<T, N>
+    HV = "heapless::vec::Vec"
+
+    def hv_cap(self, ctx, ty):
+        n = ty["args"][1] if ty and ty.get("k") == "adt" else None
+        if n is not None and n.get("k") == "const":
+            return Poly.const(int(n["val"]))
+        return None
+
+    def hv_len_of(self, ctx, st, v):
+        ex = ctx.ex
+        if isinstance(v, Agg) and v.name == self.HV:
+            return v.fields[0].poly(), v.ty
+        if isinstance(v, SymV):
+            ln = sym_int("len(%s)" % v.name, ex.pbits, False)
+            cap = self.hv_cap(ctx, v.ty)
+            if cap is not None:
+                st.facts.add_fact_ge0(cap - ln)
+            return ln, v.ty
+        if isinstance(v, ITE):
+            la, ta = self.hv_len_of(ctx, st, v.a)
+            lb, tb = self.hv_len_of(ctx, st, v.b)
+            return v.c * la + (ONE - v.c) * lb, ta or tb
+        raise ex_undecided("heapless Vec expected, got %r" % (v,))
+
+    def hv_get(self, ctx, st, p):
+        """(len poly, type) of the heapless Vec behind pointer p (model: Agg [len])"""
+        v = ctx.ex.read(st, p.root, p.path, p.pty)
+        ln, ty = self.hv_len_of(ctx, st, v)
+        if ty is None:
+            ty = p.pty
+        return ln, ty
+
+    def hv_set(self, ctx, st, p, ln, ty):
+        ctx.ex.write(st, p.root, p.path, Agg("adt", self.HV, 0, [IntV(ctx.ex.pbits, False, p=ln)], ty), p.pty)
+
+    def s_hv_new(self, ctx, st):
+        """heapless::vec::Vec::new"""
+        return [(st, Agg("adt", self.HV, 0, [IntV(ctx.ex.pbits, False, p=ZERO)], ctx.dest_ty))]
+
+    def s_hv_clear(self, ctx, st):
+        """heapless::vec::Vec::clear"""
+        p = ctx.args[0]
+        ln, ty = self.hv_get(ctx, st, p)
+        self.hv_set(ctx, st, p, ZERO, ty)
+        return [(st, UNITV)]
+
+    def s_hv_push(self, ctx, st):
+        """heapless::vec::Vec::push"""
+        p, x = ctx.args
+        ln, ty = self.hv_get(ctx, st, p)
+        cap = self.hv_cap(ctx, ty)
+        if cap is None:
+            return None
+        room = ge0(cap - ln - 1, st.facts)
+        self.hv_set(ctx, st, p, ln + room, ty)
+        ok = Agg("adt", RESULT, 0, [UNITV])
+        err = Agg("adt", RESULT, 1, [x])
+        return [(st, mk_ite(room, ok, err))]
+
+    def s_hv_extend(self, ctx, st):
+        """heapless::vec::Vec::extend_from_slice"""
+        p, sl = ctx.args
+        ln, ty = self.hv_get(ctx, st, p)
+        cap = self.hv_cap(ctx, ty)
+        k = self.ptr_len(ctx, st, sl)
+        if cap is None or k is None:
+            return None
+        room = ge0(cap - ln - k, st.facts)
+        self.hv_set(ctx, st, p, ln + room * k, ty)
+        ok = Agg("adt", RESULT, 0, [UNITV])
+        err = Agg("adt", RESULT, 1, [UNITV])
+        return [(st, mk_ite(room, ok, err))]
+
+    def s_hv_deref(self, ctx, st):
+        """<heapless::vec::Vec as core::ops::deref::Deref>::deref | <heapless::vec::Vec as core::ops::deref::DerefMut>::deref_mut | heapless::vec::Vec::as_slice"""
+        p = ctx.args[0]
+        ln, ty = self.hv_get(ctx, st, p)
+        ety = ty["args"][0] if ty else None
+        return [(st, Ptr(p.root, p.path + (("f", 1, None),), IntV(ctx.ex.pbits, False, p=ln), {"k": "slice", "ty": ety}, False))]
+
+    def s_hv_clone(self, ctx, st):
+        """<heapless::vec::Vec as core::clone::Clone>::clone"""
+        p = ctx.args[0]
+        ln, ty = self.hv_get(ctx, st, p)
+        return [(st, Agg("adt", self.HV, 0, [IntV(ctx.ex.pbits, False, p=ln)], ty))]
+
     def s_default(self, ctx, st):
         """core::default::Default::default"""
         if ctx.r["kind"] == "body":
